@@ -76,13 +76,22 @@ def run(out, tier, seed, proof):
     items = [(rng.randrange(2), f"e{j}", v) for j, v in enumerate(vals)]
     items.append((0, "shared", "'same-name-other-catalog-0'"))
     items.append((1, "shared", "'same-name-other-catalog-1'"))
-    rt = run_impl_worker("impl_catalog.py", {"roundtrip": {"catalogs": ["first", "second-2"], "items": items}}, timeout=600)["roundtrip"]
+    swaps = {"1": "True", "3.5": "3.5", "'text'": "'text2'", "None": "0", "[1, (2, 'a'), {'k': b'bytes'}]": "[1.0, (2, 'a'), {'k': b'bytes'}]",
+             "{'é': [None, True]}": "{'é': [None, 1]}", "frozenset({1, 2})": "frozenset({1.0, 2})"}
+    items2 = [(ci, en, swaps.get(v, v)) for ci, en, v in items]
+    rt = run_impl_worker("impl_catalog.py", {"roundtrip": {"catalogs": ["first", "second-2"], "items": items, "items2": items2}}, timeout=600)["roundtrip"]
     out.coverage["roundtrip_runs"] = rt["runs"]
     for j, ((ci, en, v), got) in enumerate(zip(items, rt["outs"])):
         out.case(["roundtrip", ci, en, v])
         want = repr(eval(v))  # noqa: S307
         if got != want:
             out.violation("a consumer did not receive the value returned into the catalog entry", {"item": (ci, en, v), "received": got, "runs": rt["runs"]})
+    for j, ((ci, en, v), got) in enumerate(zip(items2, rt.get("outs2", []))):
+        out.case(["roundtrip2", ci, en, v])
+        want = repr(eval(v))  # noqa: S307
+        if got != want:
+            out.violation("after the producer changed its return value a consumer still received the old one",
+                          {"item": (ci, en, v), "received": got, "expected": want, "runs": rt.get("runs2")})
     if len(rt["runs"]) == 2 and rt["runs"][1].get("exit") == 0:
         second = dict(rt["runs"][1]["out"])
         ran = [n for n, o in second.items() if o == "SUCCESS"]
